@@ -442,12 +442,12 @@ CONTRACTS.update({
     f"{MR}.robotPeriodic": {"kind": "callback", "params": {}, "raises": True, "modifies": ["g_faults", "g_seq"] + _USER, "ensures": {}, "note": "user-overridable robotPeriodic(): only referenced (stored in the periodics list) by robotInit"},
     f"{MR}._MagicRobot__simulationPeriodic": {"kind": "callback", "params": {}, "raises": True, "modifies": ["g_faults", "g_seq"] + _USER, "ensures": {}, "note": "hal.simPeriodicBefore / _simulationPeriodic / hal.simPeriodicAfter: only referenced by robotInit"},
     f"{MR}.isSimulation": {"kind": "external", "params": {}, "returns": "Bool", "ensures": {"simulation flag (stable)": "result == g_sim"}, "note": "wpilib.RobotBase.isSimulation()"},
-    "AutonomousModeSelector.__init__": {"kind": "external", "ctor": True, "receivers": ["AutonomousModeSelector"], "params": {"autonomous_pkgname": "Str"}, "raises": True, "modifies": [],
+    "AutonomousModeSelector.__init__": {"kind": "external", "ctor": True, "cites": ['C14.M2', 'C14.O1'], "receivers": ["AutonomousModeSelector"], "params": {"autonomous_pkgname": "Str"}, "raises": True, "modifies": [],
                                         "ensures": {"a selector whose discovered modes are idle, nothing active (verified in contracts/seldisc.py)":
                                                     "self.active_mode is None and not self.robot_exit and self.chooser is not None and forall(m, Ref_AutoMode, implies(exists_mode(self, m), m.g_state == 0)) and "
                                                     "forall(k, Str, implies(has(self.modes, k), self.modes[k] is not None and exists_mode(self, self.modes[k]))) and implies(g_choice is not None, exists_mode(self, g_choice))"},
                                         "note": "AutonomousModeSelector('autonomous'): the constructor is verified in its own sidecar group (contracts/seldisc.py); here its result is assumed"},
-    f"{MR}._create_components": {"receivers": [MR], "params": {}, "raises": True, "verify": False,
+    f"{MR}._create_components": {"receivers": [MR], "params": {}, "raises": True, "verify": False, "cites": ['C06.S4', 'C11.S6', 'C10.S5'],
                                  "requires": {"C06.S0 the autonomous mode selector exists already (its modes are injection targets and get their setup() here)": "self._automodes is not None"},
                                  "modifies": ["self._components", "self._feedbacks", "self._reset_components", "g_faults", "g_seq"] + _USER,
                                  "ensures": {"the lists are well formed (verified in contracts/robotinit.py: C06.S4 new pairwise distinct components, C11.S6 feedback getters/setters existing and pairwise distinct, C10.S5 reset entries with pairwise distinct components)":
